@@ -34,7 +34,7 @@ SPEC = dict(
         dict(family="huge", n=(10, 80), paths=(2, 3), calls=250, layouts=True,
              label="YarnTrace: long walks of very big programs under random layouts")],
     # hand-written scripts run as written: the repository's fixtures and the idiom corpus /verif/scripts
-    scripts=dict(paths=(6, 30), calls=80),
+    scripts=dict(paths=(6, 30), calls=80, mc=dict(invariants=FLOW, max_calls=9, after_end=1)),
     rule="systematic family `tiny` (every program S1;S2 over an alphabet of 376 statements built from 6 leaf statements, if / if-else with 3 "
          "condition kinds and option groups of 1-2 options over 10 small bodies: 141,752 programs; a strided sample per run, seed-dependent offset) "
          "and seeded random programs of the flow family (<=3 nodes, nesting <=3): ALL choice paths enumerated by TLC (MC_Runner) and replayed; "
